@@ -778,17 +778,39 @@ pub fn run(ctx: &mut Ctx) {
     let mut docs = 0u64;
     let doc_tokens: Vec<&String> = tokens.iter().filter(|t| !t.contains('\n')).collect();
     let per_token = if quick { 3 } else { 24 };
+    let mut jobs: Vec<(String, Sty, &'static str, Target, OptVec)> = Vec::new();
+    // the null table in full: null-like texts x styles x {no tag, !!str, !!null, !!int} x every Option / untyped / string target
+    for tok in ["", "~", "null", "Null", "NULL", "nUll", "nul", "~~"] {
+        for sty in STYLES {
+            for tag in ["", "!!str", "!!null", "!!int"] {
+                for tg in &targets {
+                    if matches!(tg, Target::Option(_) | Target::Any | Target::String | Target::Unit) {
+                        jobs.push((tok.to_string(), sty, tag, tg.clone(), optvecs[0]));
+                        if !quick {
+                            jobs.push((tok.to_string(), sty, tag, tg.clone(), *rng.pick(&optvecs)));
+                        }
+                    }
+                }
+            }
+        }
+    }
     for tok in &doc_tokens {
         for k in 0..per_token {
             let sty = if k == 0 { Sty::Plain } else { *rng.pick(&STYLES) };
             let tag = if k == 0 || rng.chance(1, 2) { "" } else { *rng.pick(&TAGS) };
+            let tg = rng.pick(&targets).clone();
+            let ov = *rng.pick(&optvecs);
+            jobs.push((tok.to_string(), sty, tag, tg, ov));
+        }
+    }
+    {
+        for (tok, sty, tag, tg, ov) in jobs {
+            let tok = &tok;
             let text = render_doc(tok, sty, tag);
             let Some(doc) = single_scalar(&text) else {
                 ctx.skipped += 1;
                 continue;
             };
-            let tg = rng.pick(&targets).clone();
-            let ov = *rng.pick(&optvecs);
             docs += 1;
             let got = match util::no_panic(|| run_target(&tg, &text, ov.options())) {
                 Ok(r) => r,
@@ -837,6 +859,50 @@ pub fn run(ctx: &mut Ctx) {
                         let ok = match (&w, &got) { (Some(s), SRes::Str(g)) => s == g, (None, SRes::Err(_)) => true, _ => false };
                         if !ok {
                             ctx.fail("string-tag-table", format!("{text:?} as String with {ov:?} gave {got:?}, documented {w:?}"), replay.clone());
+                        }
+                    }
+                }
+                // S: documented null table for Option<T>: None exactly for an empty unquoted scalar, a plain `~` / `null`
+                // (any case) and `!!null`; a scalar tagged `!!str` is a string whatever its text; everything else is
+                // Some(what T alone reads)
+                if let Target::Option(inner) = &tg {
+                    if matches!(tag, "" | "!!str" | "!!null") {
+                        let quoted = sc.style == 1 || sc.style == 2;
+                        let table = (sc.value.is_empty() && !quoted) || (sc.style == 0 && (sc.value == "~" || sc.value.eq_ignore_ascii_case("null")));
+                        let is_null = tag == "!!null" || (tag != "!!str" && table);
+                        let want = if is_null {
+                            SRes::None
+                        } else {
+                            match run_target(inner, &text, ov.options()) {
+                                SRes::Err(e) => SRes::Err(e),
+                                v => some(v),
+                            }
+                        };
+                        let same = match (&want, &got) { (SRes::Err(_), SRes::Err(_)) => true, (a, b) => a.coq() == b.coq() };
+                        if !same {
+                            ctx.fail("option-null-table", format!("{text:?} as {tg:?} with {ov:?} gave {got:?}, documented {want:?}"), replay.clone());
+                        }
+                    }
+                }
+                // S: untyped inference (documented order null -> bool -> int -> float -> string) agrees with the exact
+                // integer reference: a plain untagged token is an integer exactly when it is one for i64 / u64
+                if tg == Target::Any && tag.is_empty() && sc.style == 0 && !ov.no_schema {
+                    let t = sc.value.trim();
+                    let nullish = sc.value.is_empty() || sc.value == "~" || sc.value.eq_ignore_ascii_case("null");
+                    let tl = t.to_ascii_lowercase();
+                    let is_bool = if ov.strict { matches!(tl.as_str(), "true" | "false") } else { matches!(sc.value.trim().to_ascii_lowercase().as_str(), "y" | "yes" | "true" | "on" | "n" | "no" | "false" | "off") };
+                    if !nullish && !is_bool {
+                        let want_int = ref_signed(t, 64, ov.legacy).map(SRes::Int).or_else(|| ref_unsigned(t, 64, ov.legacy).map(SRes::UInt));
+                        let ok = match (&want_int, &got) {
+                            (Some(SRes::Int(a)), SRes::Int(b)) => a == b,
+                            (Some(SRes::Int(a)), SRes::UInt(b)) => *a >= 0 && *a as u128 == *b,
+                            (Some(SRes::UInt(a)), SRes::UInt(b)) => a == b,
+                            (Some(_), _) => false,
+                            (None, SRes::Int(_) | SRes::UInt(_)) => false,
+                            (None, _) => true,
+                        };
+                        if !ok {
+                            ctx.fail("untyped-int-inference", format!("{text:?} untyped with {ov:?} gave {got:?}, exact 64-bit integer reading {want_int:?}"), replay.clone());
                         }
                     }
                 }
